@@ -23,7 +23,7 @@ def run(rep, tier):
                        "Weight normalisation in Map_Sphere::Initialize is checked on the AST.")
     rep.rule("R1.1", "the only value reaching out_->setPos is SUM_el el.weight_*(BC(r0, el.in_->getPos()) + r0), with BC = "
                      "BoundaryCondition::BCShortestConnection and r0 = position of the first parent")
-    rep.rule("R1.2", "velocity = SUM weight_*getVel, force = SUM force_weight_*getF, mass = SUM getMass (sphere)")
+    rep.rule("R1.2", "velocity = SUM weight_*getVel, force = SUM force_weight_*getF, mass = SUM getMass (every bead map); no return precedes the write-back")
     rep.rule("R1.3", "Map_Sphere::Initialize: stored weight = w_i/SUM w; force weight = (d_i/SUM d)/(w_i/SUM w) (d := w when absent); "
                      "w_i = 0 with d_i != 0 and size mismatches throw; AddElem stores (weight, force_weight) in that order")
     rep.rule("R1.4", "every path to setPos passes the comparison max_dist > 0.5*getShortestBoxDimension() (throw on true), "
